@@ -68,3 +68,8 @@ chk("C08", "model-based PBT: generated Router configurations, complete call matr
     "For each generated router (methods via add_method_handler / decorator with arbitrary MethodConfig, bare actions of every kind and CallConfig, optional clear_state) the whole call matrix is executed; exactly the handler the registration allows must run (unique tag) and every other call must be rejected; never-runnable or duplicate registrations must be refused; the clear-state program must be exactly the given action.",
     "Trusts vf/avm and the 40-line dispatch model in vf/router/build.py.",
     "DESIGN.md section 2 C08")
+
+chk("C09", "PBT over method signatures (0..20 params: ABI values, transaction and reference types) with algosdk's AtomicTransactionComposer as the independent ARC-4 client; routed handler logs every received argument; logs compared with reference encodings",
+    "Generated signatures straddling the 15-argument cutoff, with transaction and reference parameters at any position, are called through groups built offline by algosdk's AtomicTransactionComposer; the handler's per-parameter logs and the single 0x151f7c75-prefixed result log must equal the reference encodings, typed transaction parameters must be enforced, and the returned contract's signatures/selectors must be the ones the program dispatches on.",
+    "Trusts algosdk (ATC + abi) as the ARC-4 calling-convention reference, vf/avm, C04 static predicate.",
+    "DESIGN.md section 2 C09")
